@@ -63,7 +63,7 @@ def setup():
 
 def plan(tier, seed):
     L = 4 if tier == "quick" else 5
-    shards = [("automata", L)] + [("values", i, 4 if tier == "quick" else 5) for i in range(6)] + [("orders",)]
+    shards = [("automata", L)] + [("values", i, 4 if tier == "quick" else 5) for i in range(6)] + [("orders",), ("ticks",)]
     return dict(shards=shards, bounds=dict(alphabet_size=len(A.SIGMA), conformance_string_length=L, value_length=4 if tier == "quick" else 5), budget_s=900)
 
 
@@ -120,6 +120,8 @@ def run_shard(shard, ctx):
         _automata(ctx, shard[1])
     elif shard[0] == "values":
         _values(ctx, shard[1], shard[2])
+    elif shard[0] == "ticks":
+        _ticks(ctx)
     else:
         _orders(ctx)
 
@@ -179,6 +181,18 @@ def _values(ctx, pi, L):
             line = '%d = E "%s"' % (7 + n, T)
             check_line(ctx, order, line, "value enumeration")
             check_e2e(ctx, ["  " + line], "value enumeration")
+
+
+def _ticks(ctx):
+    """Tick digit strings and padding of event lines (values stay verbatim, tick decoded exactly)."""
+    order = _order()
+    for pad in ("", " ", "\t", "  \t"):
+        for t in ("0", "7", "007", "10", "12345678", "000000000000", "98765432109876543210"):
+            for text in ("lyric la la", "section S 1", "free", 'lyric "q"', "section ", ""):
+                line = '%s%s = E "%s"' % (pad, t, text)
+                check_line(ctx, order, line, "tick digit string / padding")
+                if len(t) <= 8:
+                    check_e2e(ctx, [line], "tick digit string / padding")
 
 
 def _orders(ctx):
